@@ -8,6 +8,7 @@ package main
 
 import (
 	"fmt"
+	"os"
 	"go/token"
 	"go/types"
 	"sort"
@@ -28,6 +29,8 @@ type Cands struct {
 	refs map[string]int          // dereferenced references
 	ints map[string]int          // other integer terms offered through hints
 	mark func() int
+	tags map[string]map[string]bool // index candidate -> symbols of the arrays it indexes
+	symf func(arr string, out map[string]bool)
 }
 
 func NewCands() *Cands {
@@ -47,13 +50,33 @@ func put(m map[string]int, k string, v int) {
 	}
 }
 
-func (c *Cands) addIdx(t Term) {
-	if c != nil {
-		put(c.idx, t.S, c.now())
+func (c *Cands) addIdx(t Term) { c.addIdxFor(t, Term{}) }
+
+// addIdxFor registers t as an index used on the array/slice term arr.
+func (c *Cands) addIdxFor(t Term, arr Term) {
+	if c == nil || strings.Contains(t.S, "?q") {
+		return
+	}
+	put(c.idx, t.S, c.now())
+	if arr.S == "" || c.symf == nil {
+		return
+	}
+	if c.tags == nil {
+		c.tags = map[string]map[string]bool{}
+	}
+	m := c.tags[t.S]
+	if m == nil {
+		m = map[string]bool{}
+		c.tags[t.S] = m
+	}
+	n := len(m)
+	c.symf(arr.S, m)
+	if len(m) == n {
+		m["sort:"+string(arr.Sort)] = true
 	}
 }
 func (c *Cands) addKey(t Term) {
-	if c == nil {
+	if c == nil || strings.Contains(t.S, "?q") {
 		return
 	}
 	m := c.keys[t.Sort]
@@ -64,7 +87,7 @@ func (c *Cands) addKey(t Term) {
 	put(m, t.S, c.now())
 }
 func (c *Cands) addRef(t Term) {
-	if c != nil && t.S != "0" {
+	if c != nil && t.S != "0" && !strings.Contains(t.S, "?q") {
 		put(c.refs, t.S, c.now())
 	}
 }
@@ -81,6 +104,17 @@ func (c *Cands) cloneUpTo(mark int) *Cands {
 		}
 	}
 	cp(n.idx, c.idx)
+	n.symf = c.symf
+	n.tags = map[string]map[string]bool{}
+	for k, v := range c.tags {
+		if _, ok := n.idx[k]; ok {
+			m := map[string]bool{}
+			for s := range v {
+				m[s] = true
+			}
+			n.tags[k] = m
+		}
+	}
 	cp(n.refs, c.refs)
 	cp(n.ints, c.ints)
 	for s, m := range c.keys {
@@ -98,22 +132,26 @@ func (c *Cands) size() int {
 }
 
 type Env struct {
-	x       *Exec
-	sink    *Builder
-	vars    map[string]TV
-	st      *State
-	old     *State
-	cands   *Cands
-	assume  bool // true: expression is a hypothesis
-	facts   *[]Term
-	skTag   string
-	inst    *int // running instance counter (names of nested skolems)
-	depth   int
-	useCand bool // instantiate with candidates (phase 2); false: phase 1 (collect only)
-	hasHypQ *bool
-	fnPos   token.Pos
-	szMaps  *map[string]Term
+	x        *Exec
+	sink     *Builder
+	vars     map[string]TV
+	st       *State
+	old      *State
+	cands    *Cands
+	assume   bool // true: expression is a hypothesis
+	facts    *[]Term
+	skTag    string
+	inst     *int // running instance counter (names of nested skolems)
+	depth    int
+	useCand  bool // instantiate with candidates (phase 2); false: phase 1 (collect only)
+	hasHypQ  *bool
+	fnPos    token.Pos
+	szMaps   *map[string]Term
 	instPath string // instantiation terms of the enclosing instantiated quantifiers (names nested skolems)
+	canonQ   bool   // render quantifiers as SMT quantifiers over canonical bound names (for syntactic matching)
+	noShare  bool
+	hybrid   bool
+	qdepth   int
 }
 
 func (e *Env) with(vars map[string]TV) *Env {
@@ -153,6 +191,19 @@ func (e *Env) Bool(x *Expr) Term {
 }
 
 func (e *Env) Tr(x *Expr) TV {
+	tv := e.tr(x)
+	if !e.canonQ && e.sink != nil && !e.noShare {
+		switch x.Kind {
+		case EField, EIndex, ECall, EBinary, ECond, EQuant, EUnary:
+			if !strings.Contains(tv.T.S, "?q") && !strings.Contains(tv.T.S, "dummy_") {
+				tv.T = e.sink.Share(tv.T)
+			}
+		}
+	}
+	return tv
+}
+
+func (e *Env) tr(x *Expr) TV {
 	switch x.Kind {
 	case EInt:
 		return TV{e.intLit(x.Name), nil}
@@ -416,7 +467,7 @@ func (e *Env) index(x *Expr) TV {
 	i := e.Tr(x.Args[1])
 	switch {
 	case isSliceSort(a.T.Sort):
-		e.cands.addIdx(i.T)
+		e.cands.addIdxFor(i.T, a.T)
 		var et types.Type
 		if a.Ty != nil {
 			if st, ok := a.Ty.Underlying().(*types.Slice); ok {
@@ -427,7 +478,7 @@ func (e *Env) index(x *Expr) TV {
 		e.x.wfLoaded(e, v, et, And(mk(SBool, "(<= 0 %s)", i.T), mk(SBool, "(< %s %s)", i.T, SlLen(a.T))))
 		return TV{v, et}
 	case strings.HasPrefix(string(a.T.Sort), "(Array "):
-		e.cands.addIdx(i.T)
+		e.cands.addIdxFor(i.T, a.T)
 		var et types.Type
 		if a.Ty != nil {
 			if at, ok := a.Ty.Underlying().(*types.Array); ok {
@@ -611,6 +662,25 @@ func (e *Env) call(x *Expr) TV {
 	if sf.Body == nil || sf.Rec {
 		return e.x.applyUninterp(e, sf, args)
 	}
+	if sf.IsPred && !e.canonQ && e.x.con != nil && e.x.con.Opaque[sf.Name] {
+		// opaque predicate: the closed formula is named by a propositional constant; two occurrences
+		// over the same state terms get the same constant, nothing else is known about it
+		c := *e
+		c.canonQ = true
+		c.cands = nil
+		c.facts = nil
+		c.sink = e.x.b.child()
+		vars := map[string]TV{}
+		for i, p := range sf.Params {
+			vars[p.Name] = args[i]
+		}
+		cn := c.with(vars)
+		cn.depth = e.depth + 1
+		body := cn.Bool(sf.Body)
+		name := "opq_" + sf.Name + "_" + shortHash(body.S)
+		e.x.b.DeclFun(name, nil, SBool)
+		return TV{Term{name, SBool}, nil}
+	}
 	if e.depth > 40 {
 		sfail("spec function expansion too deep at %s", x.Name)
 	}
@@ -620,6 +690,9 @@ func (e *Env) call(x *Expr) TV {
 	}
 	n := e.with(vars)
 	n.depth = e.depth + 1
+	// skolems created inside the expansion are named after the expansion path: two predicates whose
+	// bodies have a quantifier at the same text position must not share a skolem constant
+	n.skTag = fmt.Sprintf("%s_%s%d", e.skTag, sf.Name, x.Pos)
 	r := n.Tr(sf.Body)
 	rt := e.x.parseSpecTypeIn(sf.Ret, sf.PkgPath)
 	if r.T.Sort != rt.sort {
@@ -717,7 +790,60 @@ func mentionsVar(x *Expr, v string) bool {
 
 const maxInstances = 1500
 
+var debugInst = os.Getenv("GOVC_DEBUG_INST") != ""
+
 func (e *Env) quant(x *Expr) TV {
+	// hybrid mode: quantifiers stay with the solver, except hypotheses with a quantifier alternation
+	// inside (each instance creates a skolem term that re-triggers the hypothesis: matching loop),
+	// which are instantiated by the generator under its generation limits
+	instSide := (x.Name == "forall") == e.assume
+	if e.canonQ && !(e.hybrid && (!instSide || containsQuant(x.Args[0], e.x.db))) {
+		vars := map[string]TV{}
+		for k, v := range e.vars {
+			vars[k] = v
+		}
+		var decls []string
+		for i, q := range x.Vars {
+			pt := e.x.parseSpecType(q.Type, e.fnPos)
+			name := fmt.Sprintf("?q%d_%d", e.qdepth, i)
+			ty := pt.ty
+			if isInteger2(ty) {
+				ty = nil
+			}
+			vars[q.Name] = TV{Term{name, pt.sort}, ty}
+			decls = append(decls, fmt.Sprintf("(%s %s)", name, pt.sort))
+		}
+		n := e.with(vars)
+		n.qdepth = e.qdepth + 1
+		var local []Term
+		if e.facts != nil {
+			n.facts = &local
+		}
+		body := n.Bool(x.Args[0])
+		// facts about terms that mention the bound variables are embedded in the body (they are
+		// valid for every value); the others go to the enclosing level
+		var inner []Term
+		seen := map[string]bool{}
+		for _, f := range local {
+			if seen[f.S] {
+				continue
+			}
+			seen[f.S] = true
+			if strings.Contains(f.S, fmt.Sprintf("?q%d_", e.qdepth)) {
+				inner = append(inner, f)
+			} else {
+				e.fact(f)
+			}
+		}
+		if len(inner) > 0 {
+			if x.Name == "forall" && !e.assume {
+				body = Implies(And(inner...), body)
+			} else {
+				body = And(append(inner, body)...)
+			}
+		}
+		return TV{Term{fmt.Sprintf("(%s (%s) %s)", x.Name, strings.Join(decls, " "), body.S), SBool}, nil}
+	}
 	universal := x.Name == "forall"
 	skolem := universal != e.assume // forall in goal, exists in hypothesis
 	body := x.Args[0]
@@ -762,7 +888,22 @@ func (e *Env) quant(x *Expr) TV {
 					cs[r] = true
 				}
 			case pt.sort == SInt:
+				want := e.arrayTagsFor(body, q.Name)
 				for r := range e.cands.idx {
+					if len(want) > 0 {
+						if tg := e.cands.tags[r]; len(tg) > 0 {
+							hit := false
+							for s := range tg {
+								if want[s] {
+									hit = true
+									break
+								}
+							}
+							if !hit {
+								continue
+							}
+						}
+					}
 					cs[r] = true
 					for off := range u.offsets {
 						if off != 0 {
@@ -783,12 +924,21 @@ func (e *Env) quant(x *Expr) TV {
 		for c := range cs {
 			// hypotheses with nested quantifiers create skolems when instantiated; they are only
 			// instantiated at terms that are not themselves such skolems (generation limit)
-			if nested && strings.Contains(c, "sk_h") {
+			if nested && (strings.Contains(c, "sk_h") || strings.Contains(c, "g1_")) {
 				continue
 			}
 			ts = append(ts, c)
 		}
-		sort.Strings(ts)
+		sort.Slice(ts, func(a, b int) bool {
+			pa, pb := candPriority(ts[a]), candPriority(ts[b])
+			if pa != pb {
+				return pa < pb
+			}
+			return ts[a] < ts[b]
+		})
+		if debugInst && e.useCand {
+			fmt.Fprintf(os.Stderr, "INST %s var %s: %d cands %v (from %s)\n", e.skTag, q.Name, len(ts), ts, truncate(body.String(), 80))
+		}
 		sets = append(sets, cset{q, pt, ts})
 		total *= len(ts)
 	}
@@ -845,7 +995,7 @@ func (e *Env) quant(x *Expr) TV {
 				ty = nil
 			}
 			vars[s.q.Name] = TV{Term{s.terms[idxs[i]], s.pt.sort}, ty}
-			if strings.Contains(s.terms[idxs[i]], "sk_h") {
+			if strings.Contains(s.terms[idxs[i]], "sk_h") || strings.Contains(s.terms[idxs[i]], "g1_") {
 				nsk++
 			}
 		}
@@ -916,4 +1066,174 @@ func shortHash(s string) string {
 		h *= 1099511628211
 	}
 	return fmt.Sprintf("%x", h&0xffffffffff)
+}
+
+// conj is one conjunct of a spec formula after expanding predicates and splitting on &&.
+type conj struct {
+	expr *Expr
+	env  *Env
+}
+
+// conjuncts splits e (evaluated in env) into its top-level conjuncts, looking through predicate calls.
+func conjuncts(e *Expr, env *Env, depth int) []conj {
+	if depth < 12 {
+		switch e.Kind {
+		case EBinary:
+			if e.Name == "&&" {
+				return append(conjuncts(e.Args[0], env, depth+1), conjuncts(e.Args[1], env, depth+1)...)
+			}
+		case ECall:
+			if sf, ok := env.x.db.Specs[e.Name]; ok && sf.Body != nil && !sf.Rec && sf.IsPred && len(sf.Params) == len(e.Args) && containsQuant(sf.Body, env.x.db) &&
+				!(env.x.con != nil && env.x.con.Opaque[sf.Name]) {
+				var out []conj
+				func() {
+					defer func() {
+						if r := recover(); r != nil {
+							if _, ok := r.(specErr); ok {
+								out = nil
+								return
+							}
+							panic(r)
+						}
+					}()
+					c := *env
+					c.canonQ = true
+					c.cands = nil
+					c.facts = nil
+					vars := map[string]TV{}
+					for i, p := range sf.Params {
+						a := c.Tr(e.Args[i])
+						pt := env.x.parseSpecTypeIn(p.Type, sf.PkgPath)
+						if pt.ty != nil {
+							if b, isb := a.Ty.(*types.Basic); a.Ty == nil || (isb && b.Kind() == types.UntypedNil) {
+								a.Ty = pt.ty
+							}
+						}
+						vars[p.Name] = a
+					}
+					n := env.with(vars)
+					out = conjuncts(sf.Body, n, depth+1)
+				}()
+				if out != nil {
+					return out
+				}
+			}
+		}
+	}
+	return []conj{{e, env}}
+}
+
+// canon renders a conjunct in a polarity-independent closed form.
+func canon(c conj) (s string, ok bool) {
+	defer func() {
+		if r := recover(); r != nil {
+			if _, isSpec := r.(specErr); isSpec {
+				ok = false
+				return
+			}
+			panic(r)
+		}
+	}()
+	n := *c.env
+	n.canonQ = true
+	n.cands = nil
+	n.facts = nil
+	n.sink = c.env.x.b.child()
+	return n.Bool(c.expr).S, true
+}
+
+// arrayTagsFor: the symbols of the arrays that variable v indexes inside body (translated in the
+// current environment; arrays whose expression depends on bound variables are skipped).
+func (e *Env) arrayTagsFor(body *Expr, v string) map[string]bool {
+	out := map[string]bool{}
+	if e.cands == nil || e.cands.symf == nil {
+		return out
+	}
+	var arrs []*Expr
+	collectIndexed(body, v, &arrs, e.x.db, 0, nil)
+	for _, a := range arrs {
+		func() {
+			defer func() {
+				if r := recover(); r != nil {
+					if _, ok := r.(specErr); ok {
+						return
+					}
+					panic(r)
+				}
+			}()
+			n := *e
+			n.cands = nil
+			n.facts = nil
+			n.sink = e.x.b.child()
+			n.noShare = true
+			tv := n.Tr(a)
+			k := len(out)
+			e.cands.symf(tv.T.S, out)
+			if len(out) == k {
+				out["sort:"+string(tv.T.Sort)] = true
+			}
+		}()
+	}
+	return out
+}
+
+// collectIndexed gathers the array expressions a such that a[...v...] occurs in x (looking through
+// non-recursive spec functions; arguments are substituted textually only for identifiers).
+func collectIndexed(x *Expr, v string, out *[]*Expr, db *ContractDB, depth int, subst map[string]*Expr) {
+	if x == nil {
+		return
+	}
+	if x.Kind == EIndex && mentionsVar(x.Args[1], v) {
+		*out = append(*out, substExpr(x.Args[0], subst))
+	}
+	if x.Kind == ECall && db != nil && depth < 5 {
+		if sf, ok := db.Specs[x.Name]; ok && sf.Body != nil && !sf.Rec && len(sf.Params) == len(x.Args) {
+			for i, a := range x.Args {
+				if a.Kind == EIdent && a.Name == v {
+					ns := map[string]*Expr{}
+					for j, p := range sf.Params {
+						if j != i {
+							ns[p.Name] = substExpr(x.Args[j], subst)
+						}
+					}
+					collectIndexed(sf.Body, sf.Params[i].Name, out, db, depth+1, ns)
+				}
+			}
+		}
+	}
+	for _, a := range x.Args {
+		collectIndexed(a, v, out, db, depth, subst)
+	}
+}
+
+func substExpr(x *Expr, subst map[string]*Expr) *Expr {
+	if x == nil || len(subst) == 0 {
+		return x
+	}
+	if x.Kind == EIdent {
+		if r, ok := subst[x.Name]; ok {
+			return r
+		}
+		return x
+	}
+	n := *x
+	n.Args = make([]*Expr, len(x.Args))
+	for i, a := range x.Args {
+		n.Args[i] = substExpr(a, subst)
+	}
+	return &n
+}
+
+// candPriority orders instantiation candidates: goal skolems first, then values computed by the code,
+// then other ground terms, hypothesis skolems last (they are dropped first when a cap is hit).
+func candPriority(c string) int {
+	switch {
+	case strings.Contains(c, "sk_h") || strings.Contains(c, "g1_"):
+		return 3
+	case strings.HasPrefix(c, "sk_g"):
+		return 0
+	case strings.HasPrefix(c, "r_t") || strings.HasPrefix(c, "p_"):
+		return 1
+	}
+	return 2
 }
